@@ -13,21 +13,57 @@ def install(R):
     R.impure_props |= {"all_nan_result", "num_sown_batches", "num_results", "runner", "full_ds", "full_df"}
 
     # ---------------------------------------------------------------- event queries (trace obligations)
+    def hides(e, nm):
+        if e.kind != "unknown-calls":
+            return False
+        hidden = (e.extra or {}).get("names")
+        return hidden is None or nm.split(".")[-1] in hidden
+
+    def is_call(e, nm):
+        return e.kind == "call" and e.name.split(":")[-1] == nm
+
+    def hidden_somewhere(fr, nm):
+        """a skipped statement / the other iterations of a loop cut at its invariant / merged histories may have called nm
+        without the event list showing it"""
+        return any(hides(e, nm) for e in fr.st.events)
+    S["__hidden_calls__"] = hidden_somewhere
+
+    def visible(fr, *names):
+        for nm in names:
+            for e in fr.st.events:
+                if hides(e, nm):
+                    raise Unsupported(f"calls of {nm} may be hidden by: {e.name} (line {e.line})")
+    S["__events_visible__"] = visible
+
     def called(eng, fr, name):
         nm = name.t.as_string()
-        return mk_bool(any(e.kind == "call" and e.name.split(":")[-1] == nm for e in fr.st.events))
+        if any(is_call(e, nm) for e in fr.st.events):
+            return mk_bool(True)
+        if hidden_somewhere(fr, nm):
+            return mk_bool(z3.Bool(fresh_name("maybe_called")))      # not determined by what was explored: either
+        return mk_bool(False)
     S["called"] = called
 
     def ncalled(eng, fr, name):
         nm = name.t.as_string()
-        return mk_int(sum(1 for e in fr.st.events if e.kind == "call" and e.name.split(":")[-1] == nm))
+        n = sum(1 for e in fr.st.events if is_call(e, nm))
+        if hidden_somewhere(fr, nm):
+            more = z3.Int(fresh_name("hidden_calls"))
+            fr.st.assume(more >= 0)
+            return mk_int(n + more)
+        return mk_int(n)
     S["ncalled"] = ncalled
 
     def call_arg(eng, fr, name, arg, nth=None):
         nm = name.t.as_string()
         an = arg.t.as_string()
-        evs = [e for e in fr.st.events if e.kind == "call" and e.name.split(":")[-1] == nm]
         k = 0 if nth is None else nth.t.as_long()
+        evs = []
+        for e in fr.st.events:
+            if hides(e, nm) and len(evs) <= k:
+                raise Unsupported(f"call {nm}#{k} may be hidden by: {e.name} (line {e.line})")
+            if is_call(e, nm):
+                evs.append(e)
         if len(evs) <= k:
             raise T.MissingEvent(f"no call event {nm}#{k} on this path")
         env = (evs[k].extra or {}).get("env")
@@ -39,14 +75,20 @@ def install(R):
     def called_before(eng, fr, a, b):
         """every call to a precedes every call to b on this path"""
         an, bn = a.t.as_string(), b.t.as_string()
-        ia = [k for k, e in enumerate(fr.st.events) if e.kind == "call" and e.name.split(":")[-1] == an]
-        ib = [k for k, e in enumerate(fr.st.events) if e.kind == "call" and e.name.split(":")[-1] == bn]
-        return mk_bool(all(x < y for x in ia for y in ib))
+        ia = [k for k, e in enumerate(fr.st.events) if is_call(e, an)]
+        ib = [k for k, e in enumerate(fr.st.events) if is_call(e, bn)]
+        if not all(x < y for x in ia for y in ib):
+            return mk_bool(False)
+        if hidden_somewhere(fr, an) or hidden_somewhere(fr, bn):
+            return mk_bool(z3.Bool(fresh_name("maybe_ordered")))
+        return mk_bool(True)
     S["called_before"] = called_before
 
     def last_call_is(eng, fr, name):
         nm = name.t.as_string()
-        calls = [e for e in fr.st.events if e.kind == "call"]
+        calls = [e for e in fr.st.events if e.kind in ("call", "unknown-calls")]
+        if calls and calls[-1].kind == "unknown-calls":
+            return mk_bool(z3.Bool(fresh_name("maybe_last")))
         return mk_bool(bool(calls) and calls[-1].name.split(":")[-1] == nm)
     S["last_call_is"] = last_call_is
 
@@ -186,8 +228,13 @@ def install2(R):
 
     def call_result(eng, fr, name, nth=None):
         nm = name.t.as_string()
-        evs = [e for e in fr.st.events if e.kind == "call" and e.name.split(":")[-1] == nm]
         k = 0 if nth is None else nth.t.as_long()
+        evs = []
+        for e in fr.st.events:
+            if e.kind == "unknown-calls" and len(evs) <= k and ((e.extra or {}).get("names") is None or nm.split(".")[-1] in (e.extra or {}).get("names")):
+                raise Unsupported(f"call {nm}#{k} may be hidden by: {e.name} (line {e.line})")
+            if e.kind == "call" and e.name.split(":")[-1] == nm:
+                evs.append(e)
         if len(evs) <= k or (evs[k].extra or {}).get("result") is None:
             raise T.MissingEvent(f"no result recorded for call {nm}#{k}")
         return evs[k].extra["result"]
